@@ -29,7 +29,9 @@ NUMS = ["1130", "27", "0", "-1", "33", "99999999999", "1130;id", "27 ;id", "1e3"
         "2147483648", "+27", "27\n", "$(id)", "`id`",
         # values that are in range only after a narrowing conversion (16 / 8 / 32 bits) or a sign change
         "66736", "132272", "-64336", "67036", "65737", "4294968426", "-4294966166", "283", "1386", "65563", "4294967323",
-        "-4294967269", "-229", "01130", "1130.0", "1130e0", "0027"]
+        "-4294967269", "-229", "01130", "1130.0", "1130e0", "0027",
+        # boundaries of the accepted ranges themselves (mtu 201..1500, netmask 1..32)
+        "200", "201", "1500", "1501", "00", "-0", "+0", "1", "32", "000", "0x0", "31", "2", "8"]
 
 
 def payloads(tier, seed):
